@@ -42,9 +42,53 @@ class Harness:
     def case(self):
         return {"recipe": self.recipe, "history": copy.deepcopy(self.history)}
 
+    def feed_result(self, op):
+        """The input is an object RETURNED by an earlier call (a pipeline: validate with one schema, hand the result
+        to the next). It is 'any value' like every other: the call must leave it as it found it."""
+        from statham.schema.elements import Element, Integer, Number
+        from statham.schema.property import Property
+
+        oks = [c for c in self.calls if c[1] == "ok" and isinstance(c[3], (dict, list))]
+        if not oks:
+            return []
+        src = oks[op["index"] % len(oks)][3]
+        if op.get("member") is not None and isinstance(src, (dict, list)) and len(src):
+            # a nested member of the result instead
+            members = [v for v in (src.values() if isinstance(src, dict) else src) if isinstance(v, (dict, list))]
+            if members:
+                src = members[op["member"] % len(members)]
+        before = observe.plain(src)
+        before_type = type(src)
+        if op["target"] == "tree":
+            target = self.real
+        else:
+            # another (anonymous) element that converts and completes what it is given
+            keys = [k for k in (src if isinstance(src, dict) else {}) if isinstance(k, str)][:2]
+            props = {("p%d" % i): Property(Number(), source=k) for i, k in enumerate(keys)}
+            props["zz_new"] = Property(Integer(default=0))
+            target = Element(properties=props, items=Number())
+            if op["target"] == "allof":
+                from statham.schema.elements import AllOf
+                target = AllOf(target, Element(additionalProperties=False, properties={
+                    ("q%d" % i): Property(Element(), source=k) for i, k in enumerate(keys)}))
+        try:
+            with __import__("warnings").catch_warnings():
+                __import__("warnings").simplefilter("ignore")
+                target(src)
+        except Exception:  # noqa: BLE001 - the verdict is not the point here
+            pass
+        after = observe.plain(src)
+        fails = []
+        if type(src) is not before_type or not observe.plain_eq(before, after):
+            fails.append({"sub": "input", "kind": "input-mutated(input was an earlier result)", "target": op["target"],
+                          "detail": [canon(before)[:300], canon(after)[:300]]})
+        return fails + self.invariants()
+
     def apply(self, op):
         self.history.append(copy.deepcopy(op))
         fails = []
+        if op["op"] == "feed_result":
+            return self.feed_result(op)
         if op["op"] == "call":
             value = op["value"]
             prior = None
@@ -107,7 +151,7 @@ class Harness:
 
 def values_strategy(schema):
     return st.one_of(values_for(schema, 1, 1).map(lambda vs: vs[0]), values_for(schema, 1, 1).map(lambda vs: vs[0]),
-                     st.sampled_from(OVERLAP_VALUES))
+                     st.sampled_from(OVERLAP_VALUES), st.sampled_from(DEP_VALUES))
 
 
 @st.composite
@@ -137,6 +181,26 @@ def overlapping_anyof(draw):
     return node
 
 
+@st.composite
+def dependency_recipes(draw):
+    """Several array-form dependencies on one element (class-level helper lists that a call might extend), with
+    values that trigger none, one, or several of them at once."""
+    keys = draw(st.lists(st.sampled_from(["a", "b", "c", "d"]), min_size=2, max_size=3, unique=True))
+    node = {"id": 1, "kind": draw(st.sampled_from(["Element", "Object"])), "kw": {},
+            "sub": {"dependencies": {k: draw(st.lists(st.sampled_from(["a", "b", "c", "d", "e"]), min_size=1, max_size=2,
+                                                      unique=True)) for k in keys}}}
+    if draw(st.booleans()):
+        node["kw"]["required"] = draw(st.lists(st.sampled_from(["a", "e"]), max_size=1))
+    if node["kind"] == "Object":
+        node["name"] = "Dep"
+        node["props"] = []
+    if draw(st.integers(0, 2)) == 0:
+        node = {"id": 9, "kind": "Array", "kw": {}, "sub": {"items": node}}
+    return node
+
+
+DEP_VALUES = [{"a": 1}, {"b": 1}, {"a": 1, "b": 2}, {"a": 1, "b": 2, "c": 3, "d": 4, "e": 5}, {"c": 1, "d": 2},
+              {"a": 1, "e": 1}, {"d": 1}, {}, [{"a": 1, "b": 2}], [{"a": 1, "b": 2, "c": 3, "d": 4, "e": 5}, {"a": 1}]]
 OVERLAP_VALUES = [{"kind": "box"}, {"kind": 5}, {"size": 2, "kind": "x"}, {"colour": "blue"}, 1, 1.5, 2, [1, 2],
                   [1, "a"], {}, "s", {"size": "big"}, {"p": {"kind": "box"}}, {"p": {"kind": 5}}, {"p": 1},
                   {"p": 1.5}, {"p": [1]}, {"p": ["a"]}]
@@ -151,7 +215,7 @@ class Machine(RuleBasedStateMachine):
         self.h = None
 
     @initialize(recipe=st.one_of(R.recipes(R.RCfg(depth=3)), R.recipes(R.RCfg(depth=3)), R.recipes(R.RCfg(depth=3)),
-                                 overlapping_anyof()))
+                                 overlapping_anyof(), dependency_recipes()))
     def init(self, recipe):
         self.h = Harness(recipe)
         self.schema = R.to_schema(recipe)
@@ -178,6 +242,13 @@ class Machine(RuleBasedStateMachine):
     @rule(index=st.integers(0, 30))
     def repeat(self, index):
         self._do({"op": "repeat", "index": index})
+
+    @precondition(lambda self: self.h is not None and any(c[1] == "ok" and isinstance(c[3], (dict, list))
+                                                          for c in self.h.calls))
+    @rule(index=st.integers(0, 30), where=st.sampled_from(["other", "other", "allof", "tree"]),
+          member=st.one_of(st.none(), st.integers(0, 5)))
+    def feed_result(self, index, where, member):
+        self._do({"op": "feed_result", "index": index, "target": where, "member": member})
 
     def teardown(self):
         if self.h is None or self._stats is None:
